@@ -472,7 +472,12 @@ def read_script(eng: Engine, ctx: Ctx, rid: str, gate: dict | None):
     se = SymEval(eng.ce, asm, bind={hdr_param: gate["arg"]}, uid_base=100).run()
     reads = [e for e in se.effects if e.kind == "call" and is_self_call(e.term, m.prim.name)]
     loc = eng.loc(asm, asm.node)
-    uncond = all(not e.guards and not e.loops for e in reads)
+
+    def own_size_guard(e):
+        """The only admissible guard of a request: its own size being non-zero (the skipped read would return b'')."""
+        return all(len(conj) <= 1 and all(_implies_ge1((lit,), e.term[3][0]) for lit in conj) for conj in e.dnf)
+
+    uncond = all(own_size_guard(e) and not e.loops for e in reads)
     ctx.check(len(reads) == 3 and uncond, rid, asm.qualname, "number of stream requests", expected="3 unconditional requests (length byte, payload, CRC)",
               found=f"{len(reads)} request(s)" + ("" if uncond else ", some conditional"), **loc)
     if len(reads) != 3:
@@ -499,8 +504,21 @@ def read_script(eng: Engine, ctx: Ctx, rid: str, gate: dict | None):
     cat = CatContext()
     wantcat = [("src", gate["b1"], 0, None), ("src", gate["b2"], 0, None), ("src", r1, 0, None), ("src", r2, 0, None), ("src", r3, 0, None)]
     raws = []
+
+    def unguard(t):
+        """ite(size != 0, read(size), b'') == read(size) as a byte string (an empty request yields b'')."""
+        if not isinstance(t, tuple) or not t:
+            return t
+        if t[0] == "ite" and m.is_read(t[2]) and t[3] == ("const", b"") and _implies_ge1(((t[1], True),), t[2][3][0]):
+            return t[2]
+        if t[0] == "bin":
+            return ("bin", t[1], unguard(t[2]), unguard(t[3]))
+        if t[0] == "tuple":
+            return ("tuple", tuple(unguard(x) for x in t[1]))
+        return t
+
     for e in rets:
-        for g, leaf in leaves(e.term, ()):
+        for g, leaf in leaves(unguard(e.term), ()):
             raw = leaf[1][0] if leaf[0] == "tuple" and len(leaf[1]) == 2 else None
             raws.append((raw, e))
     for raw, e in raws:
@@ -511,6 +529,7 @@ def read_script(eng: Engine, ctx: Ctx, rid: str, gate: dict | None):
     pc = [e for e in se.effects if e.kind == "call" and is_self_call(e.term, "parse")]
     for e in pc:
         a0 = e.term[3][0] if e.term[3] else dict(e.term[4]).get("message")
+        a0 = unguard(a0) if a0 is not None else None
         segs = cat.to_cat(a0) if a0 is not None else None
         ctx.check(segs == wantcat, rid, asm.qualname, "bytes handed to the static parser", expected="the raw frame", found=cat.render(segs) if segs else "?", **eng.loc(asm, e.node))
     ctx.instance("read-primitive requests in the assembler", len(reads), 3)
@@ -522,11 +541,14 @@ def _len_facts(conj, data_term, size_term):
     lo, hi = 0, None
     ge_size = False
     lt_size = False
+    size_hi = None
 
     def is_len(t):
         return t[0] == "call" and t[2] == ("builtin", "len") and t[3] == (data_term,)
 
     for c, pol in conj:
+        if size_term is not None and c == size_term and not pol:
+            size_hi = 0  # `not size`
         if c[0] != "cmp":
             continue
         op, a, b = c[1], c[2], c[3]
@@ -534,6 +556,14 @@ def _len_facts(conj, data_term, size_term):
 
         if not pol:
             op = NEGATE[op]
+        if size_term is not None and a == size_term and is_const(b) and isinstance(b[1], int):
+            if op == "<=":
+                size_hi = b[1] if size_hi is None else min(size_hi, b[1])
+            elif op == "<":
+                size_hi = b[1] - 1 if size_hi is None else min(size_hi, b[1] - 1)
+            elif op == "==":
+                size_hi = b[1] if size_hi is None else min(size_hi, b[1])
+            continue
         if is_len(b) and not is_len(a):  # normalise to L op x
             a, b = b, a
             op = {"<": ">", ">": "<", "<=": ">=", ">=": "<=", "==": "==", "!=": "!="}.get(op, op)
@@ -561,7 +591,9 @@ def _len_facts(conj, data_term, size_term):
             elif op == ">":
                 ge_size = True
     infeasible = (hi is not None and hi < lo) or (ge_size and lt_size)
-    return lo, ge_size, infeasible, lt_size
+    if size_hi is not None and size_hi <= lo:
+        ge_size = True  # len >= lo >= size
+    return lo, ge_size, infeasible, lt_size, size_hi
 
 
 def read_primitive_contract(eng: Engine, ctx: Ctx, rid: str):
@@ -585,21 +617,21 @@ def read_primitive_contract(eng: Engine, ctx: Ctx, rid: str):
             n += 1
             ctx.check(e.term == data, rid, f.qualname, "returned value", expected="the stream's result, unmodified", found=show(e.term)[:80], **eng.loc(f, e.node))
             for conj in e.dnf:
-                lo, ge, infeasible, lt = _len_facts(conj, data, sizep)
+                lo, ge, infeasible, lt, shi = _len_facts(conj, data, sizep)
                 if infeasible:
                     continue
-                ctx.check(lo >= 1, rid, f.qualname, "normal return excludes an empty result", expected="len(data) >= 1 on the path", found=f"len(data) >= {lo} under {guard_text(conj)[:100]}", **eng.loc(f, e.node))
+                ctx.check(lo >= 1 or (shi is not None and shi <= 0), rid, f.qualname, "normal return excludes an empty result for a non-empty request", expected="len(data) >= 1 on the path (or size <= 0)", found=f"len(data) >= {lo} under {guard_text(conj)[:100]}", **eng.loc(f, e.node))
                 ctx.check(ge, rid, f.qualname, "normal return excludes a short result", expected="len(data) >= size on the path", found=guard_text(conj)[:120], **eng.loc(f, e.node))
         if e.kind == "raise":
             n += 1
             cls = show(e.term[2]) if e.term[0] == "call" else show(e.term)
             for conj in e.dnf:
-                lo, ge, infeasible, lt = _len_facts(conj, data, sizep)
+                lo, ge, infeasible, lt, shi = _len_facts(conj, data, sizep)
                 if infeasible:
                     continue
                 if lt and lo >= 1:
                     ctx.check(cls.endswith("RTCMStreamError"), rid, f.qualname, "short read raises the stream error", expected="RTCMStreamError", found=cls, **eng.loc(f, e.node))
-                elif lo == 0:
+                elif lo == 0 and not cls.endswith("RTCMStreamError"):
                     ctx.check(cls == "EOFError", rid, f.qualname, "empty read raises EOFError", expected="EOFError", found=cls, **eng.loc(f, e.node))
     return n
 
@@ -730,3 +762,371 @@ def read_returns(eng: Engine, ctx: Ctx, rid: str, model: ReaderModel | None = No
                       found=f"{names[0]} = {show(a)[:50]}, {names[1]} = {show(b)[:50]}", **loc)
     ctx.instance("iteration ends examined", len(ends), 5)
     return n
+
+
+# ============================================================================ C02 rules
+def _interval(t, model: "ReaderModel | None" = None):
+    """Conservative integer interval [lo, hi] of a request-size term (None = unbounded)."""
+    if is_const(t) and isinstance(t[1], int) and not isinstance(t[1], bool):
+        return t[1], t[1]
+    bvc = BVContext()
+    bvc.cat = CatContext(model.length_of if model else None)
+    bv = bvc.to_bv(t)
+    if bv is not None and not bv.neg_ones and bv.known():
+        if bv.is_const():
+            return bv.const_value(), bv.const_value()
+        fixed = sum(1 << i for i in range(bv.width()) if bv.bit(i) == 1)
+        return fixed, (1 << bv.width()) - 1
+    if t[0] == "bin" and t[1] in ("+", "-", "*"):
+        a, b = _interval(t[2], model), _interval(t[3], model)
+        if a and b and None not in a + b:
+            if t[1] == "+":
+                return a[0] + b[0], a[1] + b[1]
+            if t[1] == "-":
+                return a[0] - b[1], a[1] - b[0]
+            vals = [x * y for x in a for y in b]
+            return min(vals), max(vals)
+        if a and b and t[1] == "+" and a[0] is not None and b[0] is not None:
+            return a[0] + b[0], None
+    if t[0] == "call" and t[2] == ("attr", ("builtin", "int"), "from_bytes"):
+        return 0, None
+    if t[0] == "call" and t[2] == ("builtin", "len"):
+        return 0, None
+    if t[0] == "call" and t[2] in (("builtin", "max"),) and len(t[3]) == 2:
+        a, b = _interval(t[3][0], model), _interval(t[3][1], model)
+        los = [x[0] for x in (a, b) if x and x[0] is not None]
+        return (max(los) if los else None), None
+    return None, None
+
+
+def _implies_ge1(conj, term):
+    """Does the conjunction contain a literal implying term >= 1 (term truthy / > 0 / >= 1 / != 0)?"""
+    for c, pol in conj:
+        if c == term and pol:
+            return True
+        if c[0] == "cmp" and c[2] == term and is_const(c[3]) and isinstance(c[3][1], int):
+            from ..symeval import NEGATE
+
+            op = c[1] if pol else NEGATE[c[1]]
+            k = c[3][1]
+            if (op == ">" and k >= 0) or (op == ">=" and k >= 1) or (op == "!=" and k == 0):
+                return True
+    return False
+
+
+def eof_discipline(eng: Engine, ctx: Ctx, rid: str, model: ReaderModel):
+    ctx.rule(rid, "an empty read result may be taken for end-of-data only for a non-empty request: for every read-primitive call site the request's "
+                  "interval lower bound is >= 1, or the call is guarded by the size being non-zero, or the primitive's EOF test requires size > 0")
+    prim = model.prim
+    sizep = ("param", prim.params[1]) if len(prim.params) > 1 else None
+    # does the primitive itself guard its EOF exit with size > 0 ?
+    pse = eng.symeval(prim.qualname)
+    eof_raises = [e for e in pse.effects if e.kind == "raise" and "EOFError" in show(e.term)]
+    prim_guarded = bool(eof_raises) and all(all(_implies_ge1(conj, sizep) for conj in e.dnf) for e in eof_raises)
+    sites = eng.res.callers_of(prim.qualname)
+    n = 0
+    gate = None
+    for cs in sites:
+        caller = eng.repo.funcs[cs.caller]
+        if caller.qualname == model.asm.qualname:
+            continue  # evaluated below with the header bound to the gate's bytes
+    funcs = sorted({cs.caller for cs in sites})
+    for q in funcs:
+        fn = eng.repo.funcs[q]
+        se = eng.symeval(q)
+        for e in se.effects:
+            if e.kind == "call" and is_self_call(e.term, prim.name) and len(e.term[3]) == 1:
+                n += 1
+                arg = e.term[3][0]
+                lo, hi = _interval(arg, model)
+                loc = eng.loc(fn, e.node)
+                site_guarded = all(_implies_ge1(conj, arg) for conj in e.dnf)
+                rng = f"[{lo if lo is not None else '?'}, {hi if hi is not None else '∞'}]"
+                if lo is not None and lo >= 1:
+                    ctx.ok(rid, q, norm(e.node), found=f"request size in {rng}", **loc)
+                elif site_guarded or prim_guarded:
+                    ctx.ok(rid, q, norm(e.node), found=f"request size in {rng}; " + ("call guarded by a non-zero size" if site_guarded else "primitive's EOF test requires size > 0"), **loc)
+                else:
+                    ctx.bad(rid, q, norm(e.node), expected="request size >= 1, or EOF not inferred from an empty result for a zero-length request",
+                            found=f"request size in {rng}: a zero-length request returns b'' which the primitive reports as end of data",
+                            detail="a valid zero-length frame (D3 00 00 + CRC) ends iteration and hides every later frame", **loc)
+    ctx.instance("read-primitive call sites with intervals", n, 7)
+    return n
+
+
+def sync_set(eng: Engine, ctx: Ctx, rid: str, model: ReaderModel):
+    ctx.rule(rid, "the sync-byte test on the first byte has exactly the set {0xB5, 0x24, 0xD3}; a non-sync byte ends the iteration having consumed only that byte")
+    fr = oracle("frames.json")
+    want = {bytes([fr["ubx"]["sync"][0]]), bytes([fr["nmea"]["start"]]), bytes([fr["rtcm3"]["preamble"]])}
+    f = model.read
+    if not model.reads:
+        ctx.bad(rid, f.qualname, "first read", expected="a 1-byte read at the top of the loop", found="none", **eng.loc(f, f.node))
+        return
+    r1 = model.reads[0]
+    ctx.check(r1.term[3][0] == ("const", 1) and r1.loops == (model.lid,) and not [c for c in r1.guards if c[0] != ("loop", model.lid, "parsing")], rid, f.qualname, "first read of every iteration",
+              expected="unconditional 1-byte read", found=show(r1.term)[:40] + " under " + guard_text(r1.guards)[:60], **eng.loc(f, r1.node))
+    found_sets = []
+    for kind, st in model.loop.get("ends", []):
+        for c, pol in st.guards:
+            if c[0] == "cmp" and c[1] in ("in", "not in") and c[2] == r1.term and is_const(c[3]) and isinstance(c[3][1], (tuple, list, set, frozenset)):
+                outside = (c[1] == "not in") == pol
+                if outside:
+                    found_sets.append((set(c[3][1]), kind, st))
+    if not found_sets:
+        ctx.bad(rid, f.qualname, "sync-byte test", expected=f"`byte1 not in {sorted(want)}` -> continue", found="no iteration end guarded by a sync-set membership test of the first byte", **eng.loc(f, r1.node))
+        return
+    for sset, kind, st in found_sets:
+        ctx.check(sset == want, rid, f.qualname, "sync set", expected=str(sorted(want)), found=str(sorted(sset)), **eng.loc(f, r1.node))
+        ctx.check(kind == "continue", rid, f.qualname, "non-sync byte ends the iteration", expected="continue", found=kind, **eng.loc(f, r1.node))
+    # no second read on the non-sync path
+    for e in model.reads[1:]:
+        for conj in e.dnf:
+            bad = any(c[0] == "cmp" and c[1] in ("in", "not in") and c[2] == r1.term and ((c[1] == "not in") == pol) for c, pol in conj)
+            if bad:
+                ctx.bad(rid, f.qualname, norm(e.node), expected="no further read for a non-sync byte", found="read reachable on the non-sync path", **eng.loc(f, e.node))
+
+
+def ubx_skip(eng: Engine, ctx: Ctx, rid: str, model: ReaderModel):
+    ctx.rule(rid, "UBX skip script: requests [4, L+2] with L = 16-bit little-endian value of bytes 2,3 of the first request; invoked exactly for the 2-byte sync B5 62, then continue")
+    fr = oracle("frames.json")["ubx"]
+    f = eng.repo.func(eng.ubx_skipper)
+    ctx.touch(func=f.qualname)
+    se = SymEval(eng.ce, f, uid_base=200).run()
+    reads = [e for e in se.effects if e.kind == "call" and is_self_call(e.term, model.prim.name)]
+    loc = eng.loc(f, f.node)
+    ctx.check(len(reads) == 2 and all(not e.guards and not e.loops for e in reads), rid, f.qualname, "number of requests", expected="2 unconditional requests", found=str(len(reads)), **loc)
+    if len(reads) == 2:
+        r1, r2 = reads[0].term, reads[1].term
+        ctx.check(r1[3][0] == ("const", fr["header_after_sync"]), rid, f.qualname, "first request", expected=f"{fr['header_after_sync']} bytes (class, id, length)", found=show(r1[3][0]), **eng.loc(f, reads[0].node))
+        p = to_poly(r2[3][0])
+        syms = sorted(p.symbols()) if p is not None else []
+        Lterm = None
+        for st in subterms(r2[3][0]):
+            if isinstance(st, tuple) and st and st[0] == "call" and st[2] == ("attr", ("builtin", "int"), "from_bytes"):
+                Lterm = st
+        okp = p is not None and len(syms) == 1 and p.coef(syms[0]) == 1 and p.const_value() == fr["checksum_bytes"] and Lterm is not None and show(Lterm) == syms[0]
+        ctx.check(bool(okp), rid, f.qualname, "second request", expected=f"L + {fr['checksum_bytes']}", found=repr(p) if p is not None else show(r2[3][0])[:80], **eng.loc(f, reads[1].node))
+        if Lterm is not None:
+            bvc = BVContext()
+            bvc.cat = CatContext(lambda t: fr["header_after_sync"] if t == r1 else None)
+            bv = bvc.to_bv(Lterm)
+            off = fr["length_offset_in_header"]
+            from ..domains import BV as _BV
+
+            want = _BV([bvc.syms.bit(f"{show(r1)}[{off + (k // 8)}].b{k % 8}") for k in range(8 * fr["length_bytes"])])
+            ctx.check(bv_equal(bv, want), rid, f.qualname, "UBX length field", expected=f"little-endian 16 bits of header bytes {off},{off + 1}", found=bv.render(bvc.syms)[:160] if bv else show(Lterm)[:80], **eng.loc(f, reads[1].node))
+    # call site in read
+    rd = model.read
+    ubx_hdr = bytes(fr["sync"])
+    calls = [e for e in model.se.effects if e.kind == "call" and is_self_call(e.term, f.name)]
+    ctx.check(len(calls) == 1, rid, rd.qualname, "UBX skipper call sites", expected="1", found=str(len(calls)), **eng.loc(rd, rd.node))
+    for e in calls:
+        ok = any(c[0] == "cmp" and c[1] == "==" and pol and ((is_const(c[3]) and c[3][1] == ubx_hdr) or (is_const(c[2]) and c[2][1] == ubx_hdr)) for c, pol in e.guards)
+        ctx.check(ok, rid, rd.qualname, "UBX branch condition", expected=f"header == {ubx_hdr!r}", found=guard_text(e.guards)[-120:], **eng.loc(rd, e.node))
+        _ends_in_continue(eng, ctx, rid, model, e, "UBX")
+
+
+def _ends_in_continue(eng, ctx, rid, model, call_effect, label):
+    """The iteration in which `call_effect` ran ends without touching the loop flag and performs no further read."""
+    rd = model.read
+    flag_sym = None
+    test = model.loop.get("test")
+    later_reads = [e for e in model.se.effects if e.kind == "call" and e.seq > call_effect.seq and (model.is_read(e.term) or is_self_call(e.term, model.asm.name)) and any(call_effect.term == c2 for c2 in [])]
+    ends = [(k, st) for k, st in model.loop.get("ends", []) if any(("proj", call_effect.term, 0) == v or ("proj", call_effect.term, 1) == v for v in st.env.values())]
+    ok = bool(ends) and all(k == "continue" and st.env.get(test[2] if test and test[0] == "loop" else "", None) == test for k, st in ends)
+    ctx.check(ok, rid, rd.qualname, f"{label} branch ends the iteration", expected="continue with the loop condition unchanged", found=", ".join(k for k, _ in ends) or "no iteration end carries the skipper's result", **eng.loc(rd, call_effect.node))
+
+
+def nmea_skip(eng: Engine, ctx: Ctx, rid: str, model: ReaderModel):
+    ctx.rule(rid, "NMEA skip: exactly one line request; every talker prefix is 2 bytes beginning with '$'; the line primitive returns the stream's line unmodified, "
+                  "raises EOFError on an empty result and the stream error when the line does not end in LF")
+    fr = oracle("frames.json")["nmea"]
+    f = eng.repo.func(eng.nmea_skipper)
+    lp = eng.repo.func(eng.line_primitive)
+    ctx.touch(func=f.qualname)
+    ctx.touch(func=lp.qualname)
+    se = SymEval(eng.ce, f, uid_base=300).run()
+    lines = [e for e in se.effects if e.kind == "call" and is_self_call(e.term, lp.name)]
+    other = [e for e in se.effects if e.kind == "call" and is_self_call(e.term, model.prim.name)]
+    ctx.check(len(lines) == 1 and not other and not lines[0].guards, rid, f.qualname, "requests", expected="one unconditional line request", found=f"{len(lines)} line, {len(other)} byte request(s)", **eng.loc(f, f.node))
+    hdrs = eng.ce.value("rtcmtypes_core", "NMEA_HDR")
+    okh = isinstance(hdrs, (list, tuple, set)) and len(hdrs) > 0 and all(isinstance(h, bytes) and len(h) == 2 and h[0] == fr["start"] for h in hdrs)
+    ctx.check(bool(okh), rid, "rtcmtypes_core.NMEA_HDR", "talker prefixes", expected="2-byte prefixes beginning with '$'", found=repr(hdrs)[:80], file=eng.repo.relpath("rtcmtypes_core"), line=0)
+    rd = model.read
+    calls = [e for e in model.se.effects if e.kind == "call" and is_self_call(e.term, f.name)]
+    ctx.check(len(calls) == 1, rid, rd.qualname, "NMEA skipper call sites", expected="1", found=str(len(calls)), **eng.loc(rd, rd.node))
+    for e in calls:
+        ok = any(c[0] == "cmp" and c[1] == "in" and pol and c[3][0] == "gval" and c[3][1].v is hdrs for c, pol in e.guards)
+        ctx.check(ok, rid, rd.qualname, "NMEA branch condition", expected="header in NMEA_HDR", found=guard_text(e.guards)[-100:], **eng.loc(rd, e.node))
+        _ends_in_continue(eng, ctx, rid, model, e, "NMEA")
+    # line primitive
+    ls = eng.symeval(lp.qualname)
+    sf = eng.stream_field
+    rl = [e for e in ls.effects if e.kind == "call" and e.term[2] == ("attr", ("field", sf), "readline")]
+    ctx.check(len(rl) == 1 and not rl[0].guards, rid, lp.qualname, "stream line request", expected=f"one self.{sf}.readline()", found=str(len(rl)), **eng.loc(lp, lp.node))
+    if len(rl) == 1:
+        data = rl[0].term
+        lf = bytes([fr["terminator"]])
+        for e in ls.effects:
+            if e.kind == "return":
+                ctx.check(e.term == data, rid, lp.qualname, "returned line", expected="the stream's line, unmodified", found=show(e.term)[:60], **eng.loc(lp, e.node))
+                for conj in e.dnf:
+                    lo, ge, inf, lt, shi = _len_facts(conj, data, None)
+                    term_ok = any((c[0] == "cmp" and c[1] in ("!=", "==") and is_const(c[3]) and c[3][1] == lf and ((c[1] == "==") == pol)) or
+                                  (c[0] == "call" and c[2] == ("attr", data, "endswith") and pol) for c, pol in conj)
+                    ctx.check(lo >= 1 and term_ok, rid, lp.qualname, "normal return", expected="non-empty line ending in LF", found=guard_text(conj)[:120], **eng.loc(lp, e.node))
+            if e.kind == "raise":
+                cls = show(e.term[2]) if e.term[0] == "call" else show(e.term)
+                for conj in e.dnf:
+                    lo, ge, inf, lt, shi = _len_facts(conj, data, None)
+                    if lo == 0:
+                        ctx.check(cls == "EOFError", rid, lp.qualname, "empty line raises EOFError", expected="EOFError", found=cls, **eng.loc(lp, e.node))
+                    else:
+                        ctx.check(cls.endswith("RTCMStreamError"), rid, lp.qualname, "unterminated line raises the stream error", expected="RTCMStreamError", found=cls, **eng.loc(lp, e.node))
+
+
+def loop_continuation(eng: Engine, ctx: Ctx, rid: str, model: ReaderModel):
+    ctx.rule(rid, "loop exits: no break; the library-exception handler neither returns nor raises directly (only through the dispatcher) and ends in continue; "
+                  "__next__ raises StopIteration iff both elements of read()'s result are None and otherwise returns that result")
+    rd = model.read
+    info = model.loop
+    brk = [k for k, st in info.get("ends", []) if k == "break"]
+    ctx.check(not brk, rid, rd.qualname, "no break in the reader loop", expected="0", found=str(len(brk)), **eng.loc(rd, info["node"]))
+    handlers = [n for n in walk_no_nested(rd.node) if isinstance(n, ast.ExceptHandler)]
+    lib = [h for h in handlers if h.type is not None and "RTCM" in norm(h.type)]
+    ctx.check(len(lib) == 1, rid, rd.qualname, "library-exception handler", expected="one handler for the library's exception classes", found=str(len(lib)), **eng.loc(rd, rd.node))
+    disp = eng.repo.func(eng.error_dispatcher)
+    for h in lib:
+        effs = [e for e in model.se.effects if e.handler is h]
+        for e in effs:
+            if e.kind in ("return", "raise"):
+                ctx.bad(rid, rd.qualname, norm(e.node), expected="the handler resumes the loop", found=f"{e.kind} inside the library-exception handler", **eng.loc(rd, e.node))
+            elif e.kind == "call" and not is_self_call(e.term, disp.name):
+                ctx.bad(rid, rd.qualname, norm(e.node), expected="only the error dispatcher is called", found=show(e.term)[:60], **eng.loc(rd, e.node))
+        ends = [k for k, st in info.get("ends", []) if any(c[0] == "caught" and c[3] == norm(h.type) for c, pol in st.guards)]
+        ctx.check(ends and all(k == "continue" for k in ends), rid, rd.qualname, "handler ends in continue", expected="continue", found=", ".join(ends) or "no continue", **eng.loc(rd, h))
+    nx = eng.repo.func(f"{eng.reader_cls}.__next__")
+    ns = eng.symeval(nx.qualname)
+    calls = [e for e in ns.effects if e.kind == "call" and is_self_call(e.term, "read")]
+    if len(calls) != 1:
+        ctx.bad(rid, nx.qualname, "read call", expected="one self.read()", found=str(len(calls)), **eng.loc(nx, nx.node))
+        return
+    r = calls[0].term
+    p0, p1 = ("proj", r, 0), ("proj", r, 1)
+    both = {(("cmp", "is", p0, ("const", None)), True), (("cmp", "is", p1, ("const", None)), True)}
+    for e in ns.effects:
+        if e.kind == "raise":
+            ok = show(e.term).startswith("StopIteration") and len(e.dnf) == 1 and set(e.dnf[0]) == both
+            ctx.check(ok, rid, nx.qualname, norm(e.node), expected="raise StopIteration iff raw is None and parsed is None", found=f"{show(e.term)[:30]} under {guard_text(e.dnf[0])[:100]}", **eng.loc(nx, e.node))
+        if e.kind == "return":
+            ok = e.term == ("tuple", (p0, p1)) or e.term == r
+            ctx.check(ok, rid, nx.qualname, norm(e.node), expected="read()'s result", found=show(e.term)[:60], **eng.loc(nx, e.node))
+    ctx.check(any(e.kind == "raise" for e in ns.effects), rid, nx.qualname, "end of iteration signalled", expected="raise StopIteration", found="no raise", **eng.loc(nx, nx.node))
+    it = eng.symeval(f"{eng.reader_cls}.__iter__")
+    for e in it.effects:
+        if e.kind == "return":
+            ctx.check(e.term == ("self",), rid, f"{eng.reader_cls}.__iter__", norm(e.node), expected="return self", found=show(e.term), **eng.loc(eng.repo.func(f"{eng.reader_cls}.__iter__"), e.node))
+
+
+# ============================================================================ C15-D4 stub path (shared with C02-D7)
+def stub_path(eng: Engine, ctx: Ctx, rid: str):
+    fr = oracle("frames.json")["rtcm3"]
+    ctx.rule(rid, "unknown identity: the driver reaches `return` through the stub only, without raising; the stub stores the "
+                       "message number attribute and the unknown flag only; serialize has no branch on that flag")
+    drv = eng.repo.func(eng.attributes_driver)
+    stub = eng.repo.func(eng.stub_routine)
+    sel = eng.repo.func(eng.dict_selector)
+    ctx.touch(func=drv.qualname)
+    ctx.touch(func=stub.qualname)
+    se = eng.symeval(drv.qualname)
+    # effects guarded by "<selector result> is None"
+    def none_guard(g):
+        for c, pol in g:
+            if c[0] == "cmp" and c[1] in ("is", "==") and is_const(c[3]) and c[3][1] is None and pol and c[2][0] == "call" and is_self_call(c[2], sel.name):
+                return True
+            if c[0] == "cmp" and c[1] in ("is not", "!=") and is_const(c[3]) and c[3][1] is None and not pol and c[2][0] == "call" and is_self_call(c[2], sel.name):
+                return True
+        return False
+
+    under = [e for e in se.effects if none_guard(e.guards)]
+    calls = [e for e in under if e.kind == "call"]
+    stub_calls = [e for e in calls if is_self_call(e.term, stub.name)]
+    rets = [e for e in under if e.kind == "return"]
+    raises = [e for e in under if e.kind == "raise"]
+    ctx.check(len(stub_calls) == 1, rid, drv.qualname, "stub invoked when no definition exists", expected="exactly one call of the stub routine under `definition is None`",
+              found=f"{len(stub_calls)} call(s)", **eng.loc(drv, drv.node))
+    ctx.check(len(rets) >= 1 and not raises, rid, drv.qualname, "stub path returns normally", expected="return, no raise",
+              found=f"{len(rets)} return(s), {len(raises)} raise(s)", **eng.loc(drv, (raises or rets or [se.effects[0]])[0].node))
+    other = [e for e in calls if not is_self_call(e.term, stub.name)]
+    ctx.check(not other, rid, drv.qualname, "nothing else on the stub path", expected="only the stub call", found=", ".join(show(e.term)[:40] for e in other) or "-",
+              **eng.loc(drv, (other or stub_calls or [se.effects[0]])[0].node))
+    ss = eng.symeval(stub.qualname)
+    for e in ss.effects:
+        loc = eng.loc(stub, e.node)
+        if e.kind == "raise":
+            ctx.bad(rid, stub.qualname, norm(e.node), expected="stub never raises", found="raise", **loc)
+        elif e.kind == "store" and e.target and e.target[0] == "self":
+            ctx.check(e.target[1].startswith("_") and is_const(e.term), rid, stub.qualname, norm(e.node), expected="private constant flag", found=show(e.term)[:60], **loc)
+        elif e.kind == "call" and e.term[2] == ("builtin", "setattr"):
+            a = e.term[3]
+            lo, hi = fr["msgnum_bits"]
+            first_key = "DF002"
+            ok = len(a) == 3 and a[0] == ("self",) and is_const(a[1]) and a[1][1] == first_key and a[2] == ("field", "identity")
+            ctx.check(ok, rid, stub.qualname, norm(e.node), expected="setattr(self, 'DF002', self.identity)", found=show(e.term)[:80], **loc)
+        elif e.kind == "call":
+            ctx.bad(rid, stub.qualname, norm(e.node), expected="no other call in the stub", found=show(e.term)[:80], **loc)
+    flags = {e.target[1] for e in ss.effects if e.kind == "store" and e.target and e.target[0] == "self"}
+    ser = eng.repo.func(f"{eng.message_cls}.serialize")
+    sser = eng.symeval(ser.qualname)
+    for e in sser.effects:
+        if e.kind == "return":
+            bad = mentions(e.term, lambda s: s[0] == "ite" or (s[0] == "field" and s[1] in flags)) or bool(e.guards)
+            ctx.check(not bad, rid, ser.qualname, "serialize independent of the unknown flag", expected="no branch on the flag", found=show(e.term)[:100], **eng.loc(ser, e.node))
+
+
+
+# ============================================================================ C13-D5 reader state (shared with C05-D4)
+def reader_state(eng: Engine, ctx: Ctx, rid: str):
+    ctx.rule(rid, "the reader stores to self.* only in its constructor (no per-stream parsing state survives an error or a frame)")
+    mod, cls = eng.reader_cls.split(".")
+    n = 0
+    stores = 0
+    for f in eng.repo.methods(mod, cls):
+        selfname = f.params[0] if f.params and not f.is_static else None
+        for node in walk_no_nested(f.node):
+            hit = None
+            if isinstance(node, ast.Attribute) and isinstance(node.ctx, (ast.Store, ast.Del)) and isinstance(node.value, ast.Name) and node.value.id == selfname:
+                hit = node
+            elif isinstance(node, ast.Call) and norm(node.func) in ("setattr", "delattr") and node.args and isinstance(node.args[0], ast.Name) and node.args[0].id == selfname:
+                hit = node
+            elif isinstance(node, ast.Subscript) and isinstance(node.ctx, (ast.Store, ast.Del)) and isinstance(node.value, ast.Attribute) and isinstance(node.value.value, ast.Name) and node.value.value.id == selfname:
+                hit = node
+            elif isinstance(node, ast.Call) and isinstance(node.func, ast.Attribute) and node.func.attr in MUTATORS_ and isinstance(node.func.value, ast.Attribute) and isinstance(node.func.value.value, ast.Name) and node.func.value.value.id == selfname and node.func.value.attr != eng.stream_field:
+                hit = node
+            if hit is None:
+                continue
+            stores += 1
+            if f.name == "__init__":
+                n += 1
+                continue
+            n += 1
+            ctx.bad(rid, f.qualname, norm(eng.repo.enclosing_stmt(hit)), expected="reader fields are written in the constructor only", found=f"store in {f.name}", **eng.loc(f, hit))
+    if not any(o.rule == rid and o.status == "violated" for o in ctx.obs):
+        ctx.ok(rid, eng.reader_cls, "field stores", found=f"{stores} stores, all in __init__", file=eng.repo.relpath(mod), line=0)
+    ctx.instance("reader field stores", stores, 7)
+    return n
+
+
+MUTATORS_ = {"append", "extend", "insert", "pop", "remove", "clear", "update", "setdefault", "popitem", "sort", "reverse", "add", "discard", "__setitem__", "__delitem__"}
+
+
+def reader_option_fields(eng: Engine) -> dict:
+    """constructor parameter -> field name, from the stores `self.<field> = <param>` in the reader's constructor."""
+    init = eng.symeval(f"{eng.reader_cls}.__init__")
+    out = {}
+    for e in init.effects:
+        if e.kind == "store" and e.target and e.target[0] == "self":
+            for g, leaf in leaves(e.term):
+                if leaf[0] == "param":
+                    out.setdefault(leaf[1], e.target[1])
+    return out
